@@ -1,5 +1,6 @@
 import Py4hwV.Drv.Proto
 import Py4hwV.Proto.Hil
+import Py4hwV.Proto.HilChain
 /- C20 driver: runs the generated CMDRequest/CMDResponse steps inside the wire/environment model of Proto/Hil.lean.
    requests (fields separated by '|', lists by ';', ints by ','):
      req      | wIn,wV,wOut | valid,c ; valid,c ; ...                     open loop, one input pair per cycle
@@ -10,7 +11,13 @@ import Py4hwV.Proto.Hil
                  -> wf | chars | meaning | events(observed rows) | clkIsolated(observed rows)   (the specification functions)
      resp     | wv | aux,state,temp,temp_size,valid,v | start,vin,size,ready ; ...
                  -> rows aux,state,temp,temp_size,valid,v ; ... ("raise" from the raising edge on) | transfers or "raise"
-     respspec | wv,s,v  -> expected response characters -/
+     respspec | wv,s,v  -> expected response characters
+     respmon  | wv | start,vin,size,ready,x ; ...      x = character handed over at this edge, -1 = none
+                 -> "ok" or "viol,<first offending cycle>" | pend length | budget | accepted starts  vin,size ; ...
+                 (the specification monitor `Hil.monRun` / `Hil.accepted` on an OBSERVED session)
+     chain    | wIn,wV,wOut | wv | vin,size ; vin,size ; ...  (output table) | valid,c,ready ; ...
+                 -> rows  <13 request ints>,sel,aux,state,temp,temp_size,valid,v ; ... ("raise" from the raising edge on)
+                    | characters handed over -/
 open Proto Hil Gen
 
 def showReqRow (sw : CMDRequest.St × ReqW) : String :=
@@ -59,6 +66,31 @@ def showRespRow : Option (CMDResponse.St × RespW) → String
 def inOf (l : List Int) : RespIn :=
   ⟨(l.getD 0 0).toNat, (l.getD 1 0).toNat, (l.getD 2 0).toNat, (l.getD 3 0).toNat⟩
 
+def obsOf (l : List Int) : Obs :=
+  (inOf l, if l.getD 4 (-1) < 0 then [] else [(l.getD 4 0).toNat])
+
+/-- index of the first observation the monitor rejects -/
+def monFirstBad (wv : Nat) : Mon → List Obs → Nat → Option Nat × Mon
+  | m, [], _ => (none, m)
+  | m, o :: r, n =>
+    match monStep wv m o with
+    | none => (some n, m)
+    | some m' => monFirstBad wv m' r (n + 1)
+
+def tabOf (l : List (List Int)) : Nat → Nat × Nat := fun n =>
+  let e := l.getD n []
+  ((e.getD 0 0).toNat, (e.getD 1 0).toNat)
+
+def chainRows (k : ReqCfg) (wv : Nat) (tab : Nat → Nat × Nat) : Chain → List (Nat × Nat × Nat) → List String × List Nat
+  | _, [] => ([], [])
+  | c, (v, ch, rd) :: r =>
+    match chainStep k wv tab c v ch rd with
+    | none => (["raise"], [])
+    | some c' =>
+      let rest := chainRows k wv tab c' r
+      (s!"{showReqRow (c'.st, c'.w)},{c'.sel},{showRespRow (some (c'.rs, c'.rw))}" :: rest.1,
+       xfer c.rw (c.respIn tab rd) ++ rest.2)
+
 def handle (line : String) : String :=
   match fields line with
   | ["req", c, ins] =>
@@ -88,6 +120,21 @@ def handle (line : String) : String :=
       | none => "raise"
       | some (_, t) => showNats t
     s!"{";".intercalate (rows.map showRespRow)} | {tr}"
+  | ["respmon", wv, obs] =>
+    let wv := ((parseInts wv).headD 8).toNat
+    let os := (parseLists obs).map obsOf
+    let r := monFirstBad wv Mon.idle os 0
+    let verdict := match r.1 with
+      | none => "ok"
+      | some n => s!"viol,{n}"
+    let acc := (accepted wv Mon.idle os).map fun (a, b) => s!"{a},{b}"
+    s!"{verdict} | {r.2.pend.length} | {r.2.bud} | {";".intercalate acc}"
+  | ["chain", c, wv, tab, ins] =>
+    let k := cfgOf (parseInts c)
+    let wv := ((parseInts wv).headD 8).toNat
+    let is := (parseLists ins).map fun p => ((p.getD 0 0).toNat, (p.getD 1 0).toNat, (p.getD 2 0).toNat)
+    let r := chainRows k wv (tabOf (parseLists tab)) Chain.init is
+    s!"{";".intercalate r.1} | {showNats r.2}"
   | ["respspec", a] =>
     match (parseInts a).map Int.toNat with
     | [wv, s, v] => showNats (response wv s v)
